@@ -227,10 +227,10 @@ fn clamp_0(p: &mut Pipeline) {
 }
 
 fn clamp_a(p: &mut Pipeline) {
-    p.r = p.r.min(f32x8::splat(1.0));
-    p.g = p.g.min(f32x8::splat(1.0));
-    p.b = p.b.min(f32x8::splat(1.0));
     p.a = p.a.min(f32x8::splat(1.0));
+    p.r = p.r.min(p.a);
+    p.g = p.g.min(p.a);
+    p.b = p.b.min(p.a);
 
     p.next_stage();
 }
